@@ -248,6 +248,9 @@ def epigraph_substitution(elementwise_constrs):
         x = nl.epigraph_variable
         A_vals, A_rows, A_cols, b, K = nl.epigraph_conic_form()
         for se in scalar_exprs:
+            if nl not in se.atoms_to_coeffs:
+                # The same constraint object was listed more than once.
+                continue
             c = se.atoms_to_coeffs[nl]
             del se.atoms_to_coeffs[nl]
             se.atoms_to_coeffs[x] = c
